@@ -16,6 +16,7 @@ def expected_groups(case):
 
 def check_case(spec):
     case = make_case(spec)
+    case['verbose'] = bool(spec.get('verbose'))
     atol = spec.get('atol', 0.05)
     try:
         idxs, poss, quats = search(case, spec)
